@@ -50,14 +50,6 @@ theorem addNode_le_of_le {g k : EGraph} (hg : WF I g) (hk : WF I k) (hle : LE g 
 
 /-! ### the flat fragment of `WeakAssign` -/
 
-/-- no subnode edge leaves `s` -/
-def NoSubOut (g : EGraph) (s : Node) : Prop := ∀ p, (g.fl s p).sub = false
-
-/-- the loop body of `WeakAssign` for an edge that is not a subnode edge -/
-def waStep (I : Node → Nat) (dest : Node) (g : EGraph) (e : Node × Flags) : EGraph :=
-  let a1 := if e.2.ext then addEdge I g dest e.1 Flags.internal else g
-  if e.2.int then addEdge I a1 dest e.1 Flags.internal else a1
-
 theorem weakAssign_flat_fold (ng : NG) (dest : Node) (fuel : Nat) (es : List (Node × Flags)) (g : EGraph)
     (hes : ∀ e, e ∈ es → e.2.sub = false) :
     es.foldl (fun (acc : NG × EGraph) e =>
@@ -143,11 +135,6 @@ theorem waStep_has_edge (hI : ∀ n, I n ≤ 2) {g : EGraph} (hg : WF I g) (dest
   · rw [addEdge_fl hI hg.toRep, if_pos ⟨rfl, rfl⟩]; exact hint _
   · rw [addEdge_fl hI hg.toRep, if_pos ⟨rfl, rfl⟩]; exact hint _
   · rw [addEdge_fl hI (addEdge_wf hI hg _ _ _).toRep, if_pos ⟨rfl, rfl⟩]; exact hint _
-
-/-- the graph part of the flat `WeakAssign` -/
-def waFlat (I : Node → Nat) (g : EGraph) (dest src : Node) : EGraph :=
-  ((pointees (addNode I g dest) src).map fun d => (d, (addNode I g dest).fl src d)).foldl
-    (waStep I dest) (addNode I g dest)
 
 structure WaFlatSpec (I : Node → Nat) (g : EGraph) (dest src : Node) (r : EGraph) : Prop where
   wf : WF I r
